@@ -30,8 +30,8 @@ def union_hunks(path, special=None):
 def main_special(ours, theirs):
     if "C01.handle" in ours or "<|>" in ours:
         # dispatch chain: handlers present in theirs but not in ours are appended
-        calls = re.findall(r"<\|> (\((?:C\d\d)\.handle [^()]*\)|\(match c\.\w+ with\n\s*\| some e => C\d\d\.handle [^\n]*\n\s*\| none => none\))", theirs)
-        extra = [c for c in calls if re.search(r"C\d\d\.handle", c).group(0) not in ours]
+        calls = re.findall(r"<\|> (\((?:C\d\d)(?:\.\w+)*\.handle [^()]*\)|\(match c\.\w+ with\n\s*\| some e => C\d\d(?:\.\w+)*\.handle [^\n]*\n\s*\| none => none\))", theirs)
+        extra = [c for c in calls if re.search(r"C\d\d(?:\.\w+)*\.handle", c).group(0) not in ours]
         return ours.rstrip("\n") + "".join(" <|> " + c for c in extra) + "\n"
     return None
 
